@@ -312,7 +312,9 @@ class Rotate(Relation):
             # carried out in float32 - 1e-7 relative - which the isometry
             # tolerance below cannot and should not accommodate)
             'ptype': st.sampled_from(['float', 'float', 'int64', 'int32',
-                                      'int16']),
+                                      'int16', 'uint16', 'uint8']),
+            # a whole-number centre given as Python ints (a pixel index)
+            'cint': st.sampled_from([False, False, True]),
         })
 
     def check(self, sp, ctx):
@@ -321,14 +323,19 @@ class Rotate(Relation):
         pts = sp['pts']
         pt = sp.get('ptype', 'float')
         if pt != 'float':
-            lim = {'int16': 3e4, 'int32': 2e9, 'int64': 9e15,
-                   'float32': 1e30}[pt]
-            pts = [[max(-lim, min(lim, float(round(t[0])))),
-                    max(-lim, min(lim, float(round(t[1]))))] for t in pts]
+            lim = {'int16': 3e4, 'int32': 2e9, 'int64': 9e15, 'uint16': 65535.0,
+                   'uint8': 255.0, 'float32': 1e30}[pt]
+            lo = 0.0 if pt.startswith('uint') else -lim
+            pts = [[max(lo, min(lim, float(round(t[0])))),
+                    max(lo, min(lim, float(round(t[1]))))] for t in pts]
             ctx.label('rotate:' + pt)
+        if sp.get('cint'):
+            cx = int(max(-9e15, min(9e15, round(cx))))
+            cy = int(max(-9e15, min(9e15, round(cy))))
+            ctx.label('rotate:integer centre')
         if sp['scalar']:
             p = PixCoord(int(pts[0][0]), int(pts[0][1])) if pt.startswith(
-                'int') else PixCoord(pts[0][0], pts[0][1])
+                ('int', 'uint')) else PixCoord(pts[0][0], pts[0][1])
         else:
             xs = np.array([t[0] for t in pts])
             ys = np.array([t[1] for t in pts])
